@@ -133,6 +133,27 @@ def ambiguity (inp : Input) : Ambiguity :=
     (sweepPart acc.1 part, acc.2 || activeAmbiguous st (st.openH ++ part))) (st0, false)
   { fragile := fragile, groupTies := groupTies hs || groupTies vs, activeOrder := act }
 
+
+/-! ### the hypothesis `Good` of the sweep theorems (Lemmas/PlanariseSweep.lean), decidable form -/
+
+def segShapeB (s : Seg) : Bool :=
+  (s.ori == .H && s.on.p.y == s.cc && s.cn.p.y == s.cc && s.on.p.x == s.lo && s.cn.p.x == s.hi && decide (s.lo < s.hi)) ||
+  (s.ori == .V && s.on.p.x == s.cc && s.cn.p.x == s.cc && s.on.p.y == s.lo && s.cn.p.y == s.hi && decide (s.lo < s.hi))
+
+def apartB (a b : Rat) : Bool := a == b || decide (a + 1 < b) || decide (b + 1 < a)
+
+def allApartB (l : List Rat) : Bool := l.all (fun a => l.all (fun b => apartB a b))
+
+def noOverlapB : List Seg → Bool
+  | [] => true
+  | s :: r => r.all (fun t => !(s.ori == t.ori && s.cc == t.cc) || decide (s.hi ≤ t.lo) || decide (t.hi ≤ s.lo)) && noOverlapB r
+
+/-- axis-parallel segments of positive length stored as the EdgeSegment constructor stores them, end
+coordinates pairwise equal or more than 1 apart, no two segments of one line overlapping -/
+def goodB (S : List Seg) : Bool :=
+  S.all segShapeB && allApartB (S.flatMap (fun s => [s.on.p.x, s.cn.p.x])) &&
+  allApartB (S.flatMap (fun s => [s.on.p.y, s.cn.p.y])) && noOverlapB S
+
 /-! ### the property's clauses on a concrete result -/
 
 /-- the points the sweep is meant to report: a horizontal `h` and a vertical `v` with
